@@ -477,6 +477,91 @@ def gen_bystander(rng):
     return defs + seq
 
 
+class Name(str):
+    """a setting given by reference to a module-level object: rendered as the bare name in class source"""
+
+    def __repr__(self):
+        return str(self)
+
+
+def gen_shared_object(rng, allow_all_marker=False):
+    """two families (root + nested class each) that have nothing in common but the *identity* of a configuration object:
+      constant      one module-level mapping `K = {...}` named by the json_key_to_field (v1 engine: v1_field_to_alias) of both roots'
+                    Metas (inner Meta or LoadMeta / DumpMeta), every other setting drawn per family;
+      meta-object   one `M = LoadMeta(...)` / `DumpMeta(...)` object bound to both roots (`M.bind_to(F); M.bind_to(G)`).
+    The configuration *values* of G are the same with and without F (the G-alone run defines K / M and binds G only), so G has to
+    behave the same: an object handed to a Meta is read, not adopted as per-class state.  Returns (defs, F ops, G ops)."""
+    form = rng.choice(['constant', 'constant', 'meta-object'])
+    v1 = rng.random() < 0.2
+    setting = 'v1_field_to_alias' if v1 else 'json_key_to_field'
+    value = {'some_val': ALIAS_KEY} if v1 else {ALIAS_KEY: 'some_val'}
+    # A shared json_key_to_field mapping never carries the '__all__' marker in this stream: bind_to pops it out of the user's
+    # mapping, so only the class bound first sees it - recorded, not repaired: findings/json-key-to-field-all-marker-popped.py
+    # (allow_all_marker=True is the stream that found it)
+    if allow_all_marker and not v1 and rng.random() < 0.4:
+        value['__all__'] = True
+    fams, defs = [], []
+    if form == 'constant':
+        kname = model.fresh('K')
+        defs.append({'op': 'src', 'src': f'{kname} = {value!r}\n', 'defines': [kname]})
+    else:
+        mname, m_kind = model.fresh('M'), rng.choice(['load', 'load', 'dump'])
+        m = pick_meta2(rng, v1=v1)
+        m['special'] = {setting: copy.deepcopy(value)} if rng.random() < 0.8 else {}
+        part = dict(m[m_kind] if not (v1 and m_kind == 'dump') else m['dump'])
+        if 'key_transform_with_' + m_kind in part:
+            part['key_transform'] = part.pop('key_transform_with_' + m_kind)
+        if v1 and m_kind == 'dump':
+            part['v1'] = True
+        part.update(m['special'])
+        defs.append({'op': 'src', 'src': f'{mname} = {"LoadMeta" if m_kind == "load" else "DumpMeta"}(**{part!r})\n', 'defines': [mname]})
+    load_styles = rng.sample(['CAMEL', 'SNAKE', 'PASCAL', 'LISP', 'NONE', None], 2)      # the two families mostly match keys differently
+    flat_g = rng.random() < 0.3              # G without a nested class: F then has a field G has not, and G's documents carry its key
+    for tag in 'FG':
+        n, x = model.fresh('N'), model.fresh(tag)
+        shape = rng.choice(['single', 'single', 'list', 'optional'])
+        n_defs, _ = cls2(rng, n, rng.choice(['plain', 'plain', 'json']))
+        if tag == 'G' and flat_g:
+            n, shape, n_defs = None, None, []
+        if form == 'constant':
+            kind = rng.choice(JSON_KINDS + ['plain', 'plain', 'yaml', 'toml'])
+            meta = pick_meta2(rng, v1=v1)
+            meta['special'] = {setting: Name(kname)}
+            if not v1 and rng.random() < 0.8:
+                meta['load'].pop('key_transform_with_load', None)
+                if load_styles[tag == 'G']:
+                    meta['load']['key_transform_with_load'] = load_styles[tag == 'G']
+            style = rng.choice((['inner', 'inner', 'inner'] if KINDS[kind][1] else []) + ['bind-load', 'bind-dump', 'bind-both'])
+            x_defs, _ = cls2(rng, x, kind, n, shape, meta, style)
+            x_defs[0]['requires'] = x_defs[0]['requires'] + [kname]
+            for b in x_defs[1:]:
+                if setting in b['meta']:
+                    b['names'] = {setting: kname}
+                    b['meta'][setting] = copy.deepcopy(value)
+        else:
+            kind = rng.choice(['plain', 'plain', 'json', 'json', 'file', 'yaml', 'toml'])
+            x_defs, _ = cls2(rng, x, kind, n, shape)
+            if rng.random() < 0.3:
+                # a setting of its own for the other direction.  It is bound BEFORE the shared object: a Meta bound to a class that
+                # already has one is merged into the existing one in place (`_META[cls] &= meta`), so a bind that follows the shared
+                # object's writes into the object itself and reaches every class it is bound to - recorded, not repaired:
+                # findings/shared-meta-object-merged-in-place.py
+                other = 'dump' if m_kind == 'load' else 'load'
+                x_defs.append({'op': 'bind', 'cls': x, 'kind': other, 'meta': dict({'key_transform': rng.choice(STYLES)}, **({'v1': True} if v1 else {}))})
+            x_defs.append({'op': 'bind', 'cls': x, 'kind': m_kind, 'meta': copy.deepcopy(part), 'obj': mname})
+        ops = _ops2(rng, x, kind, n, shape, [x] + ([n] if n else []), n_docs=4)
+        if n:
+            ops += _ops2(rng, n, 'plain', None, None, [n], n_docs=1, n_dumps=1)
+        else:
+            for op in ops:
+                if op['op'] == 'load' and rng.random() < 0.6:
+                    op['doc'][_spell('inner_obj', rng.choice(['SNAKE', 'CAMEL', 'PASCAL', 'LISP']))] = {'some_val': 1}
+        fams.append((n_defs + x_defs, ops))
+    if rng.random() < 0.5:
+        fams.reverse()           # the definition order of the two families
+    return defs + fams[0][0] + fams[1][0], fams[0][1], fams[1][1]
+
+
 def bystander_stream(ctx, budget, n, base_index=200000):
     """C07 oracle over gen_bystander histories (its own stream of the seed: the streams before it are what they were)"""
     import random
@@ -489,6 +574,21 @@ def bystander_stream(ctx, budget, n, base_index=200000):
         if not ctx.begin_case(i):
             continue
         check_history(budget, 'isolation-wide:bystander', i, ops, attribute=attribute_c07)
+
+
+def shared_object_stream(ctx, budget, n, base_index=300000):
+    """C07 oracle over gen_shared_object histories (its own stream of the seed)"""
+    import random
+    rng = random.Random(f'{ctx.prop_id}:{ctx.seed}:shared-object')
+    for j in range(n):
+        i = base_index + j
+        if ctx.done(i):
+            break
+        defs, f_ops, g_ops = gen_shared_object(rng)
+        ops = defs + order_ops(rng, f_ops, g_ops, g_len=(2, 4))
+        if not ctx.begin_case(i):
+            continue
+        check_history(budget, 'isolation-wide:shared-object', i, ops, attribute=attribute_c07)
 
 
 def lite_meta(m):
@@ -573,7 +673,10 @@ def run(ctx: C.Ctx):
                 'transforms) that is a member of a Union field of an auto-tagging root and is then used on its own / below G - tag keys are '
                 'kept out of the G-side records; a nested JSONWizard class whose inner Meta derives from another class\'s inner Meta below a '
                 'recursive root, G unrelated; three families ordered by first use: F, a plain user of N (N alone / another root) and an unrelated '
-                'bystander family whose first use mostly comes last, F\'s LoadMeta / DumpMeta bound at once or after the others were used) in every '
+                'bystander family whose first use mostly comes last, F\'s LoadMeta / DumpMeta bound at once or after the others were used; two '
+                'families sharing only the identity of a configuration object - one module-level json_key_to_field / v1_field_to_alias mapping named '
+                'by both Metas, or one LoadMeta / DumpMeta object bound to both roots - with different load key transforms, G sometimes '
+                'without the nested field and fed its key) in every '
                 'operation order (G before F, after F, interleaved); each history runs in a forked pristine child; every G operation is re-run '
                 'with only G\'s definitions in another pristine child (C07: behaviour of G with F == behaviour of G alone); dump outcomes are '
                 'reduced to (class, key style, timestamps?) fingerprints and compared with the Lean cache state machine. '
@@ -626,6 +729,7 @@ def run(ctx: C.Ctx):
                 pend.append(({'history': ops}, full, watch, names))
     caches_stream(ctx, ctx.quick(60, 800))
     bystander_stream(ctx, budget, ctx.quick(70, 800))
+    shared_object_stream(ctx, budget, ctx.quick(70, 800))
     if ctx.model_available and reqs:
         outs = ctx.driver.run(reqs)
         for (case, full, watch, names), o in zip(pend, outs):
